@@ -1,6 +1,7 @@
 package xport
 
 import (
+	"fmt"
 	"errors"
 	"io"
 	"net"
@@ -45,6 +46,10 @@ type GateConn struct {
 	Overlap bool
 	curDl   time.Time
 	DlCalls int
+	// DlDuringWrite describes the first SetWriteDeadline call made while a
+	// Write was inside the transport ("" if none): on a net.Conn the new
+	// deadline applies to that pending Write as well.
+	DlDuringWrite string
 	// FailedAt is the number of writes that had been accepted when the
 	// scheduler made a pending Write fail (-1: no failure injected); FailSeq is
 	// the global stamp of that moment.
@@ -67,6 +72,13 @@ type GateConn struct {
 // NewGateConn returns a GateConn with the given input for the read side.
 func NewGateConn(input []byte, chunk int, gated bool) *GateConn {
 	return &GateConn{in: input, chunk: chunk, Gated: gated, wake: make(chan struct{}), FailedAt: -1}
+}
+
+func fmtDl(t time.Time) string {
+	if t.IsZero() {
+		return "none"
+	}
+	return t.Format("15:04:05.000")
 }
 
 var errGateClosed = errors.New("xport: use of closed connection")
@@ -215,6 +227,13 @@ func (c *GateConn) SetDeadline(t time.Time) error     { return c.SetWriteDeadlin
 func (c *GateConn) SetReadDeadline(t time.Time) error { return nil }
 func (c *GateConn) SetWriteDeadline(t time.Time) error {
 	c.mu.Lock()
+	if c.inside > 0 && c.DlDuringWrite == "" && !t.Equal(c.curDl) {
+		n := 0
+		if len(c.pending) > 0 {
+			n = len(c.pending[0].data)
+		}
+		c.DlDuringWrite = fmt.Sprintf("the transport's write deadline was changed from %s to %s while a Write (%d bytes) of another caller was inside the transport", fmtDl(c.curDl), fmtDl(t), n)
+	}
 	c.curDl = t
 	c.DlCalls++
 	c.mu.Unlock()
@@ -222,6 +241,14 @@ func (c *GateConn) SetWriteDeadline(t time.Time) error {
 }
 func (c *GateConn) LocalAddr() net.Addr  { return addr("local") }
 func (c *GateConn) RemoteAddr() net.Addr { return addr("remote") }
+
+// DeadlineDuringWrite returns the description of the first SetWriteDeadline
+// call made while a Write was inside the transport, or "".
+func (c *GateConn) DeadlineDuringWrite() string {
+	c.mu.Lock()
+	defer c.mu.Unlock()
+	return c.DlDuringWrite
+}
 
 // Snapshot returns the accepted bytes and writes.
 func (c *GateConn) Snapshot() ([]byte, []GWrite, bool) {
